@@ -12,13 +12,13 @@
 use crate::util::*;
 use metrics::{
     counter, describe_counter, describe_gauge, describe_histogram, gauge, histogram, Counter, Gauge, Histogram, Key,
-    KeyName, Level, LocalRecorderGuard, Metadata, Recorder, SharedString, Unit,
+    KeyName, Label, Level, LocalRecorderGuard, Metadata, Recorder, SharedString, Unit,
 };
 use std::cell::RefCell;
 use std::collections::BTreeMap;
 use std::panic::{catch_unwind, resume_unwind, AssertUnwindSafe};
-use std::sync::atomic::{AtomicBool, Ordering};
-use std::sync::{Arc, Barrier, Once};
+use std::sync::atomic::{AtomicBool, AtomicU32, Ordering};
+use std::sync::{Arc, Barrier, Once, OnceLock};
 
 // ---------------------------------------------------------------------------------------------
 // what a recorder double receives
@@ -65,12 +65,40 @@ thread_local! {
     static RECEIVED: RefCell<Vec<Received>> = RefCell::new(vec![]);
 }
 
+thread_local! {
+    /// a script the NEXT recorder callback on this thread runs from inside the `Recorder` method (re-entrant
+    /// emissions, scopes opened inside the callback, a panic out of the callback); taken by the first delivery
+    static CALLBACK: RefCell<Option<(*mut Ctx, *const [Stmt])>> = RefCell::new(None);
+}
+
 /// recorder double; lives in a leaked arena for the whole process
 struct Double {
     id: u32,
     /// thread (index within the case) that may install it; `None` = the global recorder
     owner: Option<usize>,
-    in_scope: AtomicBool,
+    in_scope: &'static AtomicBool,
+}
+
+/// how the installed `&dyn Recorder` reaches the double: directly, or through one of the blanket
+/// `impl_recorder!` impls of recorder/mod.rs (`&T`, `&mut T`, `Box<T>`, `Arc<T>`, and `Box<dyn Recorder>`)
+#[derive(Clone, Copy, Debug, PartialEq)]
+enum Wrap {
+    Direct,
+    Ref,
+    RefMut,
+    Boxed,
+    Arced,
+    BoxDyn,
+}
+
+const WRAPS: [Wrap; 6] = [Wrap::Direct, Wrap::Ref, Wrap::RefMut, Wrap::Boxed, Wrap::Arced, Wrap::BoxDyn];
+
+/// a leaked double as the harness sees it: the recorder reference to install and its `in_scope` flag
+#[derive(Clone, Copy)]
+struct Arena {
+    view: &'static dyn Recorder,
+    flag: &'static AtomicBool,
+    wrap: Wrap,
 }
 
 fn level_str(l: &Level) -> &'static str {
@@ -88,12 +116,50 @@ fn level_str(l: &Level) -> &'static str {
 }
 
 impl Double {
-    fn new(id: u32, owner: Option<usize>) -> &'static Double {
-        Box::leak(Box::new(Double { id, owner, in_scope: AtomicBool::new(true) }))
+    fn raw(id: u32, owner: Option<usize>) -> (Double, &'static AtomicBool) {
+        let flag: &'static AtomicBool = Box::leak(Box::new(AtomicBool::new(true)));
+        (Double { id, owner, in_scope: flag }, flag)
+    }
+    fn new(id: u32, owner: Option<usize>, wrap: Wrap) -> Arena {
+        let (d, flag) = Double::raw(id, owner);
+        let view: &'static dyn Recorder = match wrap {
+            Wrap::Direct => Box::leak(Box::new(d)),
+            Wrap::Ref => {
+                let r: &'static Double = Box::leak(Box::new(d));
+                let rr: &'static &'static Double = Box::leak(Box::new(r));
+                rr
+            }
+            Wrap::RefMut => {
+                let r: &'static mut Double = Box::leak(Box::new(d));
+                let rr: &'static &'static mut Double = Box::leak(Box::new(r));
+                rr
+            }
+            Wrap::Boxed => {
+                let b: &'static Box<Double> = Box::leak(Box::new(Box::new(d)));
+                b
+            }
+            Wrap::Arced => {
+                let a: &'static Arc<Double> = Box::leak(Box::new(Arc::new(d)));
+                a
+            }
+            Wrap::BoxDyn => {
+                let b: Box<dyn Recorder> = Box::new(d);
+                let bb: &'static Box<dyn Recorder> = Box::leak(Box::new(b));
+                bb
+            }
+        };
+        Arena { view, flag, wrap }
     }
     fn got(&self, row: Row) {
         let r = Received { id: self.id, owner: self.owner, in_scope: self.in_scope.load(Ordering::SeqCst), row };
         RECEIVED.with(|v| v.borrow_mut().push(r));
+        // the script of this callback, if any, runs HERE: inside the `Recorder` method, inside `with_recorder`
+        let cb = CALLBACK.with(|c| c.borrow_mut().take());
+        if let Some((cx, script)) = cb {
+            // SAFETY: set by `Ctx::emit` on this thread immediately before the macro call that led here; `emit`
+            // does not touch the `Ctx` while the call is in progress, and both pointers outlive the call
+            unsafe { exec(&mut *cx, &*script) }
+        }
     }
     fn desc(&self, kind: char, key: KeyName, unit: Option<Unit>, d: SharedString) {
         self.got(Row {
@@ -162,7 +228,7 @@ const CV: &str = "cv";
 
 type FormFn = fn();
 
-static FORMS: &[FormFn] = &[
+static OLD_FORMS: &[FormFn] = &[
     /* 0 */ || drop(counter!("c_lit")),
     /* 1 */ || drop(counter!(format!("c_computed_{}", seven()))),
     /* 2 */ || drop(counter!("c_lit", "uvw" => "xyz")),
@@ -213,8 +279,222 @@ static FORMS: &[FormFn] = &[
 
 const MP: &str = "mv_harness::c01";
 
-/// what each call site spelled, written down independently of the macros
-fn expected(form: usize) -> Row {
+// ---------------------------------------------------------------------------------------------
+// the systematic part of the table: EVERY combination of
+//   macro (counter!/gauge!/histogram!) × prefix arm (none | target: | level: | target:+level:)
+//   × name (literal | computed) × labels (none | literal pairs | computed pairs | collection)        = 96 call sites
+//   describe_* (3) × name (literal | computed) × unit (none | each of the 17 `Unit` variants)         = 108 call sites
+//   direct `metrics::with_recorder(|r| r.<method>(…))` calls (the public API the macros expand to)    = 6 call sites
+// in the order of `genReg ++ genDesc ++ directForms` of Model/LocalRec.lean.  The expected rows are written from the
+// SPELLING (kind, prefix, name, label shape) by plain functions that never touch the macros.
+
+fn reg_row(kind: char, name: &str, labels: &[(&str, &str)], target: &str, level: &'static str) -> Row {
+    Row {
+        describe: false,
+        kind,
+        name: name.to_string(),
+        labels: labels.iter().map(|(k, v)| (k.to_string(), v.to_string())).collect(),
+        target: Some(target.to_string()),
+        level: Some(level),
+        module_path: Some(MP.to_string()),
+        unit: None,
+        desc: None,
+    }
+}
+
+fn desc_row(kind: char, name: &str, unit: Option<&str>, d: &str) -> Row {
+    Row {
+        describe: true,
+        kind,
+        name: name.to_string(),
+        labels: vec![],
+        target: None,
+        level: None,
+        module_path: None,
+        unit: unit.map(|s| s.to_string()),
+        desc: Some(d.to_string()),
+    }
+}
+
+const L_NONE: &[(&str, &str)] = &[];
+const L_LIT: &[(&str, &str)] = &[("uvw", "xyz"), ("a", "b")];
+const L_EXPR: &[(&str, &str)] = &[("dyn", "xyz!"), ("ck", "cv")];
+const L_COLL: &[(&str, &str)] = &[("uvw", "xyz!"), ("k2", "v2")];
+
+/// the 8 name × label shapes of one macro under one prefix; `$pre` is the token list of the prefix (with its
+/// trailing comma), `$tg`/`$lv` what that prefix spells (target or the module path, level or INFO)
+macro_rules! reg8 {
+    ($v:ident, $mac:ident, $kind:literal, $lit:tt, $comp:tt, $tg:expr, $lv:expr, [$($pre:tt)*]) => {{
+        let cname = concat!($comp, "7");
+        $v.push(((|| drop($mac!($($pre)* $lit))) as FormFn, reg_row($kind, $lit, L_NONE, $tg, $lv)));
+        $v.push((|| drop($mac!($($pre)* format!(concat!($comp, "{}"), seven()))), reg_row($kind, cname, L_NONE, $tg, $lv)));
+        $v.push((|| drop($mac!($($pre)* $lit, "uvw" => "xyz", "a" => "b")), reg_row($kind, $lit, L_LIT, $tg, $lv)));
+        $v.push((
+            || drop($mac!($($pre)* format!(concat!($comp, "{}"), seven()), "uvw" => "xyz", "a" => "b")),
+            reg_row($kind, cname, L_LIT, $tg, $lv),
+        ));
+        $v.push((
+            || drop($mac!($($pre)* $lit, "dyn" => format!("{}!", dynamic_val()), CK => CV)),
+            reg_row($kind, $lit, L_EXPR, $tg, $lv),
+        ));
+        $v.push((
+            || drop($mac!($($pre)* format!(concat!($comp, "{}"), seven()), "dyn" => format!("{}!", dynamic_val()), CK => CV)),
+            reg_row($kind, cname, L_EXPR, $tg, $lv),
+        ));
+        $v.push((
+            || {
+                let labels = [("uvw", format!("{}!", dynamic_val())), ("k2", "v2".to_string())];
+                drop($mac!($($pre)* $lit, &labels))
+            },
+            reg_row($kind, $lit, L_COLL, $tg, $lv),
+        ));
+        $v.push((
+            || {
+                let labels = vec![("uvw", format!("{}!", dynamic_val())), ("k2", "v2".to_string())];
+                drop($mac!($($pre)* format!(concat!($comp, "{}"), seven()), &labels))
+            },
+            reg_row($kind, cname, L_COLL, $tg, $lv),
+        ));
+    }};
+}
+
+/// the 4 prefix arms of one macro; `$lo`/`$lb`: the level spelled by the `level:` arm / the `target:, level:` arm
+macro_rules! reg32 {
+    ($v:ident, $mac:ident, $kind:literal, $lit:tt, $comp:tt, $lo:ident, $los:literal, $lb:ident, $lbs:literal) => {{
+        reg8!($v, $mac, $kind, $lit, $comp, MP, "info", []);
+        reg8!($v, $mac, $kind, $lit, $comp, "tgt_x", "info", [target: "tgt_x",]);
+        reg8!($v, $mac, $kind, $lit, $comp, MP, $los, [level: Level::$lo,]);
+        reg8!($v, $mac, $kind, $lit, $comp, "tgt_y", $lbs, [target: "tgt_y", level: Level::$lb,]);
+    }};
+}
+
+/// describe_*: literal and computed name, without unit and with each `Unit` variant
+macro_rules! desc36 {
+    ($v:ident, $mac:ident, $kind:literal, $lit:tt, $comp:tt, [$($u:ident => $us:literal),*]) => {{
+        let cname = concat!($comp, "7");
+        $v.push(((|| $mac!($lit, "d lit")) as FormFn, desc_row($kind, $lit, None, "d lit")));
+        $v.push((
+            || $mac!(format!(concat!($comp, "{}"), seven()), format!("computed desc {}", seven())),
+            desc_row($kind, cname, None, "computed desc 7"),
+        ));
+        $(
+            $v.push((|| $mac!($lit, Unit::$u, "d lit"), desc_row($kind, $lit, Some($us), "d lit")));
+            $v.push((
+                || $mac!(format!(concat!($comp, "{}"), seven()), Unit::$u, format!("computed desc {}", seven())),
+                desc_row($kind, cname, Some($us), "computed desc 7"),
+            ));
+        )*
+    }};
+}
+
+macro_rules! desc_all_units {
+    ($v:ident, $mac:ident, $kind:literal, $lit:tt, $comp:tt) => {
+        desc36!($v, $mac, $kind, $lit, $comp, [
+            Count => "count", Percent => "percent", Seconds => "seconds", Milliseconds => "milliseconds",
+            Microseconds => "microseconds", Nanoseconds => "nanoseconds", Tebibytes => "tebibytes",
+            Gibibytes => "gibibytes", Mebibytes => "mebibytes", Kibibytes => "kibibytes", Bytes => "bytes",
+            TerabitsPerSecond => "terabits_per_second", GigabitsPerSecond => "gigabits_per_second",
+            MegabitsPerSecond => "megabits_per_second", KilobitsPerSecond => "kilobits_per_second",
+            BitsPerSecond => "bits_per_second", CountPerSecond => "count_per_second"
+        ])
+    };
+}
+
+const N_OLD: usize = 29;
+const N_REG_GEN: usize = 96;
+
+/// the whole table: (call site, what it spelled)
+fn forms() -> &'static Vec<(FormFn, Row)> {
+    static T: OnceLock<Vec<(FormFn, Row)>> = OnceLock::new();
+    T.get_or_init(|| {
+        let mut v: Vec<(FormFn, Row)> = OLD_FORMS.iter().enumerate().map(|(i, f)| (*f, expected_old(i))).collect();
+        assert_eq!(v.len(), N_OLD);
+        reg32!(v, counter, 'c', "c_lit", "c_computed_", DEBUG, "debug", WARN, "warn");
+        reg32!(v, gauge, 'g', "g_lit", "g_computed_", TRACE, "trace", ERROR, "error");
+        reg32!(v, histogram, 'h', "h_lit", "h_computed_", ERROR, "error", TRACE, "trace");
+        assert_eq!(v.len(), N_OLD + N_REG_GEN);
+        desc_all_units!(v, describe_counter, 'c', "c_lit", "c_computed_");
+        desc_all_units!(v, describe_gauge, 'g', "g_lit", "g_computed_");
+        desc_all_units!(v, describe_histogram, 'h', "h_lit", "h_computed_");
+        assert_eq!(v.len(), N_OLD + N_REG_GEN + 108);
+        // the public API the macros expand to, called by hand
+        v.push((
+            || {
+                let key = Key::from_parts("direct_c", vec![Label::new("dk", "dv")]);
+                let md = Metadata::new("tgt_d", Level::ERROR, Some(module_path!()));
+                drop(metrics::with_recorder(|r| r.register_counter(&key, &md)))
+            },
+            reg_row('c', "direct_c", &[("dk", "dv")], "tgt_d", "error"),
+        ));
+        v.push((
+            || {
+                let key = Key::from_parts(format!("direct_g{}", seven()), vec![Label::new("dk", "dv"), Label::new("k2", "v2")]);
+                let md = Metadata::new("tgt_d", Level::TRACE, Some(module_path!()));
+                drop(metrics::with_recorder(|r| r.register_gauge(&key, &md)))
+            },
+            reg_row('g', "direct_g7", &[("dk", "dv"), ("k2", "v2")], "tgt_d", "trace"),
+        ));
+        v.push((
+            || {
+                let key = Key::from_name("direct_h");
+                let md = Metadata::new(module_path!(), Level::WARN, Some(module_path!()));
+                drop(metrics::with_recorder(|r| r.register_histogram(&key, &md)))
+            },
+            reg_row('h', "direct_h", &[], MP, "warn"),
+        ));
+        v.push((
+            || metrics::with_recorder(|r| r.describe_counter("direct_c".into(), None, "direct desc".into())),
+            desc_row('c', "direct_c", None, "direct desc"),
+        ));
+        v.push((
+            || metrics::with_recorder(|r| r.describe_gauge("direct_g".into(), Some(Unit::Bytes), "direct desc".into())),
+            desc_row('g', "direct_g", Some("bytes"), "direct desc"),
+        ));
+        v.push((
+            || {
+                metrics::with_recorder(|r| {
+                    r.describe_histogram(format!("direct_h{}", seven()).into(), Some(Unit::Seconds), "direct desc".into())
+                })
+            },
+            desc_row('h', "direct_h7", Some("seconds"), "direct desc"),
+        ));
+        v
+    })
+}
+
+fn n_forms() -> usize {
+    forms().len()
+}
+
+/// random form: half of the draws from the register forms (label/prefix forwarding), half from anywhere
+fn pick_form(r: &mut Rng) -> usize {
+    if r.chance(1, 2) {
+        N_OLD + r.below(N_REG_GEN)
+    } else {
+        r.below(n_forms())
+    }
+}
+
+fn form_class(f: usize) -> String {
+    if f < N_OLD {
+        format!("old.{:02}", f)
+    } else if f < N_OLD + N_REG_GEN {
+        let i = f - N_OLD;
+        format!(
+            "reg.{}.{}.{}",
+            ["counter", "gauge", "histogram"][i / 32],
+            ["plain", "target", "level", "target+level"][(i % 32) / 8],
+            ["nolabels", "litpairs", "exprpairs", "collection"][(i % 8) / 2]
+        )
+    } else if f < N_OLD + N_REG_GEN + 108 {
+        "describe.units".to_string()
+    } else {
+        "direct.with_recorder".to_string()
+    }
+}
+
+/// what each call site of the first 29 forms spelled, written down independently of the macros
+fn expected_old(form: usize) -> Row {
     fn reg(kind: char, name: &str, labels: &[(&str, &str)], target: &str, level: &'static str) -> Row {
         Row {
             describe: false,
@@ -282,12 +562,18 @@ fn expected(form: usize) -> Row {
 #[derive(Clone, Debug)]
 enum Stmt {
     Emit(usize),
+    /// a macro call whose recorder callback runs `script` from inside the `Recorder` method (re-entrant
+    /// emissions, nested scopes; a script ending in `Panic` makes the recorder method panic — the panic is
+    /// caught directly around the macro call)
+    EmitCb(usize, Vec<Stmt>),
     Install(u32),
     Drop(usize),
     Forget(usize),
     End(u32),
-    /// `with_local_recorder(&rec, || body)`; `catch`: a `catch_unwind` sits directly around it
-    With { rec: u32, body: Vec<Stmt>, catch: bool },
+    /// `with_local_recorder(&rec, || body)` (or, `via_guard`: `{ let _g = set_default_local_recorder(&rec); body }`,
+    /// a guard owned by the frame, dropped by return or by unwinding); `catch`: a `catch_unwind` sits directly
+    /// around it
+    With { rec: u32, body: Vec<Stmt>, catch: bool, via_guard: bool },
     Panic,
     Sync,
     SetGlobal(u32),
@@ -299,10 +585,17 @@ const GLOBAL_ID: u32 = 900;
 
 struct Ctx {
     tid: usize,
-    global: Option<u32>,
+    /// the process-wide global recorder as the CASE knows it (0 = none); shared by the threads of the case,
+    /// written by the thread that runs `SetGlobal`, which the program separates from every other thread's
+    /// emissions by barriers
+    global: Arc<AtomicU32>,
+    /// how `set_global_recorder` is handed the double in this run (`&T`, `Arc<T>` or `Box<T>`)
+    global_wrap: Wrap,
     slots: Vec<Option<LocalRecorderGuard<'static>>>,
-    doubles: BTreeMap<u32, &'static Double>,
-    log: Vec<(String, String)>,
+    doubles: BTreeMap<u32, Arena>,
+    /// barrier segment of the thread (number of `Sync`s passed): logs are merged segment by segment
+    seg: usize,
+    log: Vec<(usize, String, String)>,
     fails: Vec<(String, String)>,
     counts: Vec<String>,
     /// independent of the model: the thread's live installations, newest last
@@ -315,12 +608,19 @@ struct Ctx {
 }
 
 impl Ctx {
-    fn double(&mut self, r: u32) -> &'static Double {
+    fn double(&mut self, r: u32) -> Arena {
         let tid = self.tid;
-        *self.doubles.entry(r).or_insert_with(|| Double::new(r, Some(tid)))
+        let a = *self.doubles.entry(r).or_insert_with(|| Double::new(r, Some(tid), WRAPS[(r as usize) % WRAPS.len()]));
+        a
     }
     fn op(&mut self, op: String, ans: String) {
-        self.log.push((format!("localrec {} {}", self.tid, op), ans));
+        self.log.push((self.seg, format!("localrec {} {}", self.tid, op), ans));
+    }
+    fn global_now(&self) -> Option<u32> {
+        match self.global.load(Ordering::SeqCst) {
+            0 => None,
+            g => Some(g),
+        }
     }
     fn cause(&self) -> &'static str {
         match (self.had_nonlifo, self.had_forget) {
@@ -330,13 +630,52 @@ impl Ctx {
             (false, false) => "LIFO program, nothing forgotten",
         }
     }
-    fn emit(&mut self, f: usize) {
-        RECEIVED.with(|v| v.borrow_mut().clear());
-        (FORMS[f])();
-        let got = RECEIVED.with(|v| std::mem::take(&mut *v.borrow_mut()));
-        let want_row = expected(f);
+    fn emit(&mut self, f: usize, script: Option<&[Stmt]>) {
+        // deliveries of an enclosing emission (we may be running inside its recorder callback) are set aside
+        let outer = RECEIVED.with(|v| std::mem::take(&mut *v.borrow_mut()));
+        // the op line of this emission comes BEFORE the lines of its callback script; its answer is filled in below
+        let at = self.log.len();
+        self.log.push((self.seg, String::new(), String::new()));
+        // what the property says, decided BEFORE the call (the callback script may change the scopes)
         let lifo = !(self.had_forget || self.had_nonlifo);
-        let here = format!("thread {} form {} after {} ops", self.tid, f, self.log.len());
+        let spec_want = match self.spec_stack.last() {
+            Some((_, r)) => format!("loc:{}", r),
+            None => match self.global_now() {
+                Some(g) => format!("glob:{}", g),
+                None => "noop".to_string(),
+            },
+        };
+        let here = format!("thread {} form {} after {} ops", self.tid, f, at);
+        if let Some(s) = script {
+            let me: *mut Ctx = self;
+            CALLBACK.with(|c| *c.borrow_mut() = Some((me, s as *const [Stmt])));
+            self.counts.push("callback.script".into());
+        }
+        let call = forms()[f].0;
+        // `self` is not touched until the call is over (the callback script works through the raw pointer)
+        let res = catch_unwind(call);
+        let unused = CALLBACK.with(|c| c.borrow_mut().take()).is_some();
+        if let Err(p) = res {
+            if !p.is::<VerifPanic>() || script.is_none() {
+                resume_unwind(p);
+            }
+            // the recorder method panicked (script ended in `Panic`); caught here, directly around the macro call
+            self.counts.push("callback.panicked".into());
+        }
+        if let (true, Some(s)) = (unused, script) {
+            // the emission reached no double (no-op recorder): there was no callback to run the script in.  Its
+            // statements are run here instead, right after the call — for the model this is the same op sequence
+            self.counts.push("callback.not_run(noop)".into());
+            let me: *mut Ctx = self;
+            let r = catch_unwind(AssertUnwindSafe(|| unsafe { exec(&mut *me, s) }));
+            if let Err(p) = r {
+                if !p.is::<VerifPanic>() {
+                    resume_unwind(p);
+                }
+            }
+        }
+        let got = RECEIVED.with(|v| std::mem::replace(&mut *v.borrow_mut(), outer));
+        let want_row = forms()[f].1.clone();
         if got.len() > 1 {
             self.fails.push(("emission delivered more than once".into(), format!("{} deliveries; {}", got.len(), here)));
         }
@@ -376,13 +715,7 @@ impl Ctx {
         }
         if lifo {
             // the property's own statement: innermost live local, else global, else noop
-            let want = match self.spec_stack.last() {
-                Some((_, r)) => format!("loc:{}", r),
-                None => match self.global {
-                    Some(g) => format!("glob:{}", g),
-                    None => "noop".to_string(),
-                },
-            };
+            let want = spec_want;
             let have = ans.split(' ').next().unwrap().to_string();
             if have != want {
                 self.fails.push((
@@ -392,8 +725,16 @@ impl Ctx {
             }
         }
         self.counts.push(format!("target.{}", ans.split(|c| c == ':' || c == ' ').next().unwrap()));
-        self.counts.push(format!("form.{:02}", f));
-        self.op(format!("emit {}", f), ans);
+        self.counts.push(format!("form.class.{}", form_class(f)));
+        if let Some(r) = got.first() {
+            if r.owner.is_some() {
+                if let Some(a) = self.doubles.get(&r.id) {
+                    self.counts.push(format!("delivered.via.{:?}", a.wrap));
+                }
+            }
+        }
+        self.log[at].1 = format!("localrec {} emit {}", self.tid, f);
+        self.log[at].2 = ans;
     }
     fn ended_guard(&mut self, gid: usize) {
         if self.spec_stack.last().map(|x| x.0) != Some(gid) {
@@ -406,10 +747,11 @@ impl Ctx {
 fn exec(cx: &mut Ctx, stmts: &[Stmt]) {
     for s in stmts {
         match s {
-            Stmt::Emit(f) => cx.emit(*f),
+            Stmt::Emit(f) => cx.emit(*f, None),
+            Stmt::EmitCb(f, script) => cx.emit(*f, Some(script)),
             Stmt::Install(r) => {
                 let d = cx.double(*r);
-                let g = metrics::set_default_local_recorder(d);
+                let g = metrics::set_default_local_recorder(d.view);
                 let gid = cx.slots.len();
                 cx.slots.push(Some(g));
                 cx.spec_stack.push((gid, *r));
@@ -430,10 +772,10 @@ fn exec(cx: &mut Ctx, stmts: &[Stmt]) {
             }
             Stmt::End(r) => {
                 // the borrow `&r` handed to the guards ends here
-                cx.double(*r).in_scope.store(false, Ordering::SeqCst);
+                cx.double(*r).flag.store(false, Ordering::SeqCst);
                 cx.op(format!("end {}", r), "ok".into());
             }
-            Stmt::With { rec, body, catch } => {
+            Stmt::With { rec, body, catch, via_guard } => {
                 let d = cx.double(*rec);
                 let gid = cx.slots.len();
                 cx.slots.push(None);
@@ -441,7 +783,16 @@ fn exec(cx: &mut Ctx, stmts: &[Stmt]) {
                 cx.op(format!("enter {}", rec), format!("g{}", gid));
                 cx.depth += 1;
                 cx.max_depth = cx.max_depth.max(cx.depth);
-                let res = catch_unwind(AssertUnwindSafe(|| metrics::with_local_recorder(d, || exec(&mut *cx, body))));
+                let res = if *via_guard {
+                    // the guard is a local of the frame: dropped when the frame returns AND when a panic unwinds it
+                    cx.counts.push("scope.frame_owned_guard".into());
+                    catch_unwind(AssertUnwindSafe(|| {
+                        let _frame_guard = metrics::set_default_local_recorder(d.view);
+                        exec(&mut *cx, body)
+                    }))
+                } else {
+                    catch_unwind(AssertUnwindSafe(|| metrics::with_local_recorder(d.view, || exec(&mut *cx, body))))
+                };
                 cx.depth -= 1;
                 cx.ended_guard(gid);
                 match res {
@@ -451,7 +802,7 @@ fn exec(cx: &mut Ctx, stmts: &[Stmt]) {
                             resume_unwind(p);
                         }
                         cx.op("unwind".into(), "ok".into());
-                        cx.counts.push("closure.unwound".into());
+                        cx.counts.push(if *via_guard { "frame_guard.unwound" } else { "closure.unwound" }.into());
                         if !*catch {
                             // no catch_unwind at this level in the modelled program: keep unwinding
                             resume_unwind(p);
@@ -464,11 +815,21 @@ fn exec(cx: &mut Ctx, stmts: &[Stmt]) {
                 if let Some(b) = &cx.barrier {
                     b.wait();
                 }
+                cx.seg += 1;
             }
             Stmt::SetGlobal(r) => {
-                let ok = metrics::set_global_recorder(Double::new(*r, None)).is_ok();
+                let (d, _flag) = Double::raw(*r, None);
+                let ok = match cx.global_wrap {
+                    Wrap::Arced => metrics::set_global_recorder(Arc::new(d)).is_ok(),
+                    Wrap::Boxed => metrics::set_global_recorder(Box::new(d)).is_ok(),
+                    _ => {
+                        let r: &'static Double = Box::leak(Box::new(d));
+                        metrics::set_global_recorder(r).is_ok()
+                    }
+                };
                 if ok {
-                    cx.global = Some(*r);
+                    cx.global.store(*r, Ordering::SeqCst);
+                    cx.counts.push(format!("global.via.{:?}", cx.global_wrap));
                 }
                 cx.op(format!("setglobal {}", r), if ok { "ok".into() } else { "err".into() });
             }
@@ -508,6 +869,8 @@ struct Gen<'a> {
     ended: Vec<u32>,
     budget: usize,
     max_level: usize,
+    /// generating the script of a recorder callback (scripts do not nest)
+    in_script: bool,
 }
 
 impl<'a> Gen<'a> {
@@ -521,6 +884,25 @@ impl<'a> Gen<'a> {
             self.borrows.insert(r, 0);
             r
         }
+    }
+    /// a macro call; one in six carries a script for its recorder callback: emissions made from inside the
+    /// `Recorder` method, closures opened (and left, also by panics) inside it, possibly a panic out of the method
+    fn emit_stmt(&mut self, level: usize) -> Stmt {
+        let f = pick_form(self.r);
+        if self.in_script || self.budget < 3 || !self.r.chance(1, 6) {
+            return Stmt::Emit(f);
+        }
+        self.in_script = true;
+        let saved = self.mode;
+        self.mode = Mode::Closures;
+        let n = self.r.range(1, 3);
+        let (mut b, panicked) = self.body(level + 1, n);
+        self.mode = saved;
+        self.in_script = false;
+        if !panicked {
+            b.push(Stmt::Emit(pick_form(self.r)));
+        }
+        Stmt::EmitCb(f, b)
     }
     fn maybe_end(&mut self, out: &mut Vec<Stmt>) {
         let cands: Vec<u32> =
@@ -558,7 +940,10 @@ impl<'a> Gen<'a> {
             let w_with = if level < self.max_level { 4 } else { 0 };
             let w_panic = if level > 0 { 1 } else { 0 };
             match self.r.weighted(&[6, w_install, w_close, w_with, w_panic]) {
-                0 => out.push(Stmt::Emit(self.r.below(FORMS.len()))),
+                0 => {
+                    let e = self.emit_stmt(level);
+                    out.push(e)
+                }
                 1 => {
                     let rec = self.pick_rec();
                     let g = self.next_gid;
@@ -567,7 +952,7 @@ impl<'a> Gen<'a> {
                     *self.borrows.get_mut(&rec).unwrap() += 1;
                     out.push(Stmt::Install(rec));
                     if self.r.chance(2, 3) {
-                        out.push(Stmt::Emit(self.r.below(FORMS.len())));
+                        out.push(Stmt::Emit(pick_form(self.r)));
                     }
                 }
                 2 => {
@@ -595,7 +980,7 @@ impl<'a> Gen<'a> {
                     }
                     self.maybe_end(&mut out);
                     if self.r.chance(2, 3) {
-                        out.push(Stmt::Emit(self.r.below(FORMS.len())));
+                        out.push(Stmt::Emit(pick_form(self.r)));
                     }
                 }
                 3 => {
@@ -613,13 +998,14 @@ impl<'a> Gen<'a> {
                     // who catches: level 0 always; in strict modes a level that still owns guards must catch
                     let must_catch = level == 0 || (strict && self.live.iter().any(|x| x.2 >= level));
                     let catch = !panicked || must_catch || self.r.chance(1, 2);
-                    out.push(Stmt::With { rec, body: b, catch });
+                    let via_guard = self.r.chance(1, 3);
+                    out.push(Stmt::With { rec, body: b, catch, via_guard });
                     if panicked && !catch {
                         return (out, true);
                     }
                     self.maybe_end(&mut out);
                     if self.r.chance(2, 3) {
-                        out.push(Stmt::Emit(self.r.below(FORMS.len())));
+                        out.push(Stmt::Emit(pick_form(self.r)));
                     }
                 }
                 _ => {
@@ -634,7 +1020,7 @@ impl<'a> Gen<'a> {
         (out, false)
     }
     fn finish(&mut self, out: &mut Vec<Stmt>) {
-        out.push(Stmt::Emit(self.r.below(FORMS.len())));
+        out.push(Stmt::Emit(pick_form(self.r)));
         while !self.live.is_empty() {
             match self.mode {
                 Mode::Closures | Mode::Lifo => self.close(self.live.len() - 1, false, out),
@@ -654,7 +1040,7 @@ impl<'a> Gen<'a> {
                 }
             }
             if self.r.chance(1, 3) {
-                out.push(Stmt::Emit(self.r.below(FORMS.len())));
+                out.push(Stmt::Emit(pick_form(self.r)));
             }
         }
         // every scope and every borrow has ended: nothing local may be reachable any more
@@ -664,7 +1050,7 @@ impl<'a> Gen<'a> {
             out.push(Stmt::End(r));
         }
         out.push(Stmt::Emit(self.r.below(20)));
-        out.push(Stmt::Emit(20 + self.r.below(FORMS.len() - 20)));
+        out.push(Stmt::Emit(20 + self.r.below(n_forms() - 20)));
     }
 }
 
@@ -680,6 +1066,7 @@ fn gen_thread(r: &mut Rng, mode: Mode, tid: usize, syncs: usize) -> Vec<Stmt> {
         ended: vec![],
         budget: 40,
         max_level: 0,
+        in_script: false,
     };
     g.max_level = g.r.range(1, 5);
     let _ = g.tid;
@@ -690,7 +1077,7 @@ fn gen_thread(r: &mut Rng, mode: Mode, tid: usize, syncs: usize) -> Vec<Stmt> {
         out.extend(b);
         if seg < syncs {
             out.push(Stmt::Sync);
-            out.push(Stmt::Emit(g.r.below(FORMS.len())));
+            out.push(Stmt::Emit(pick_form(g.r)));
         }
     }
     g.finish(&mut out);
@@ -701,16 +1088,18 @@ fn gen_thread(r: &mut Rng, mode: Mode, tid: usize, syncs: usize) -> Vec<Stmt> {
 // running a case
 
 struct ThreadResult {
-    log: Vec<(String, String)>,
+    log: Vec<(usize, String, String)>,
     fails: Vec<(String, String)>,
     counts: Vec<String>,
     max_depth: usize,
     had_forget: bool,
     had_nonlifo: bool,
-    global: Option<u32>,
 }
 
 static HOOK: Once = Once::new();
+
+/// how `set_global_recorder` receives its double in this run (chosen from the seed in `run`)
+static GLOBAL_WRAP: OnceLock<Wrap> = OnceLock::new();
 
 fn run_case(out: &mut Out, tag: &str, global: &mut Option<u32>, progs: Vec<Vec<Stmt>>) {
     HOOK.call_once(|| {
@@ -726,18 +1115,23 @@ fn run_case(out: &mut Out, tag: &str, global: &mut Option<u32>, progs: Vec<Vec<S
     let n = progs.len();
     let barrier = if n > 1 { Some(Arc::new(Barrier::new(n))) } else { None };
     let g0 = *global;
+    let shared = Arc::new(AtomicU32::new(g0.unwrap_or(0)));
+    let global_wrap = *GLOBAL_WRAP.get().unwrap_or(&Wrap::Ref);
     // every case runs on fresh OS threads: their LOCAL_RECORDER starts empty and dies with them
     let handles: Vec<_> = progs
         .into_iter()
         .enumerate()
         .map(|(tid, prog)| {
             let barrier = barrier.clone();
+            let shared = shared.clone();
             std::thread::spawn(move || {
                 let mut cx = Ctx {
                     tid,
-                    global: g0,
+                    global: shared,
+                    global_wrap,
                     slots: vec![],
                     doubles: BTreeMap::new(),
+                    seg: 0,
                     log: vec![],
                     fails: vec![],
                     counts: vec![],
@@ -748,7 +1142,18 @@ fn run_case(out: &mut Out, tag: &str, global: &mut Option<u32>, progs: Vec<Vec<S
                     max_depth: 0,
                     depth: 0,
                 };
-                exec(&mut cx, &prog);
+                let syncs = prog.iter().filter(|s| matches!(s, Stmt::Sync)).count();
+                let me: *mut Ctx = &mut cx;
+                let died = catch_unwind(AssertUnwindSafe(|| unsafe { exec(&mut *me, &prog) })).is_err();
+                if died {
+                    // never leave the other threads of the case waiting at a barrier
+                    for _ in cx.seg..syncs {
+                        if let Some(b) = &cx.barrier {
+                            b.wait();
+                        }
+                    }
+                    cx.fails.push(("harness thread died".to_string(), format!("thread {} after {} ops", tid, cx.log.len())));
+                }
                 // the random generator closes every guard; the exhaustive programs may end with guards still open:
                 // the thread ends here, nothing observes its LOCAL_RECORDER any more, so they are simply leaked
                 for g in cx.slots.drain(..).flatten() {
@@ -761,7 +1166,6 @@ fn run_case(out: &mut Out, tag: &str, global: &mut Option<u32>, progs: Vec<Vec<S
                     max_depth: cx.max_depth,
                     had_forget: cx.had_forget,
                     had_nonlifo: cx.had_nonlifo,
-                    global: cx.global,
                 }
             })
         })
@@ -769,12 +1173,11 @@ fn run_case(out: &mut Out, tag: &str, global: &mut Option<u32>, progs: Vec<Vec<S
     let mut fails = vec![];
     let mut depth = 0;
     let (mut forget, mut nonlifo) = (false, false);
+    let mut logs: Vec<Vec<(usize, String, String)>> = vec![];
     for (tid, h) in handles.into_iter().enumerate() {
         match h.join() {
             Ok(tr) => {
-                for (op, ans) in &tr.log {
-                    out.op(op, ans);
-                }
+                logs.push(tr.log);
                 for c in &tr.counts {
                     out.count(c);
                 }
@@ -782,13 +1185,28 @@ fn run_case(out: &mut Out, tag: &str, global: &mut Option<u32>, progs: Vec<Vec<S
                 depth = depth.max(tr.max_depth);
                 forget |= tr.had_forget;
                 nonlifo |= tr.had_nonlifo;
-                if tr.global.is_some() {
-                    *global = tr.global;
-                }
             }
             Err(_) => fails.push(("harness thread died".to_string(), format!("thread {}", tid))),
         }
     }
+    // the op stream follows the barriers: segment by segment (everything a thread did before its k-th `Sync`
+    // happened before everything any thread did after it), threads in index order within a segment.  Within a
+    // segment the threads touch disjoint state (own recorders, own LOCAL_RECORDER); `set_global_recorder` is
+    // alone in its segment.
+    let max_seg = logs.iter().flat_map(|l| l.iter().map(|x| x.0)).max().unwrap_or(0);
+    for seg in 0..=max_seg {
+        for l in &logs {
+            for (s, op, ans) in l {
+                if *s == seg {
+                    out.op(op, ans);
+                }
+            }
+        }
+    }
+    *global = match shared.load(Ordering::SeqCst) {
+        0 => None,
+        g => Some(g),
+    };
     out.count(&format!("threads={}", n));
     out.count(&format!("depth={}", depth.min(5)));
     out.count(&format!("history.{}", match (nonlifo, forget) {
@@ -816,7 +1234,7 @@ fn corpus() -> Vec<(&'static str, Vec<Vec<Stmt>>)> {
         // the closure form of the FIFO defect: a guard created inside a closure outlives the closure
         (
             "corpus closure-escape",
-            vec![vec![With { rec: 1, body: vec![Install(2), Emit(2)], catch: true }, Emit(3), Drop(1), End(1), End(2), Emit(21)]],
+            vec![vec![With { rec: 1, body: vec![Install(2), Emit(2)], catch: true, via_guard: false }, Emit(3), Drop(1), End(1), End(2), Emit(21)]],
         ),
         // depth-3 nesting with a panic in the innermost closure, caught two levels up
         (
@@ -829,12 +1247,14 @@ fn corpus() -> Vec<(&'static str, Vec<Vec<Stmt>>)> {
                         Emit(1),
                         With {
                             rec: 2,
-                            body: vec![Emit(2), With { rec: 3, body: vec![Emit(8), Panic], catch: false }, Emit(3)],
+                            body: vec![Emit(2), With { rec: 3, body: vec![Emit(8), Panic], catch: false, via_guard: false }, Emit(3)],
                             catch: true,
+                            via_guard: false,
                         },
                         Emit(4),
                     ],
                     catch: true,
+                    via_guard: false,
                 },
                 Emit(5),
                 End(1),
@@ -851,7 +1271,7 @@ fn corpus() -> Vec<(&'static str, Vec<Vec<Stmt>>)> {
                 Emit(0),
                 Install(2),
                 Emit(0),
-                With { rec: 3, body: vec![Emit(0)], catch: true },
+                With { rec: 3, body: vec![Emit(0)], catch: true, via_guard: false },
                 Emit(0),
                 Drop(1),
                 Emit(0),
@@ -869,12 +1289,103 @@ fn corpus() -> Vec<(&'static str, Vec<Vec<Stmt>>)> {
             "corpus isolation",
             vec![
                 vec![Install(1), Sync, Emit(0), Sync, Drop(0), End(1), Emit(0)],
-                vec![Emit(0), Sync, Emit(1), With { rec: 101, body: vec![Emit(2)], catch: true }, Sync, End(101), Emit(3)],
+                vec![Emit(0), Sync, Emit(1), With { rec: 101, body: vec![Emit(2)], catch: true, via_guard: false }, Sync, End(101), Emit(3)],
             ],
         ),
         // every form once, inside a closure
-        ("corpus all-forms", vec![vec![With { rec: 1, body: (0..FORMS.len()).map(Emit).collect(), catch: true }]]),
-        ("corpus all-forms-outside", vec![(0..FORMS.len()).map(Emit).collect()]),
+        ("corpus all-forms", vec![vec![With { rec: 1, body: (0..n_forms()).map(Emit).collect(), catch: true, via_guard: false }]]),
+        ("corpus all-forms-outside", vec![(0..n_forms()).map(Emit).collect()]),
+        // every form once through each way a recorder can be handed over (recorder id mod 6 picks Direct, `&T`,
+        // `&mut T`, `Box<T>`, `Arc<T>`, `Box<dyn Recorder>`: the blanket impls of recorder/mod.rs)
+        (
+            "corpus all-forms-every-wrapper",
+            vec![(2..=6u32)
+                .map(|k| With { rec: k, body: (0..n_forms()).map(Emit).collect(), catch: true, via_guard: k % 2 == 0 })
+                .collect()],
+        ),
+        // the recorder method itself emits, opens and leaves scopes: everything it does happens in the scope of the
+        // call site (with_recorder only READS the thread-local), and afterwards the scope is what it was
+        (
+            "corpus callback-reentrant",
+            vec![vec![
+                With {
+                    rec: 1,
+                    body: vec![
+                        EmitCb(
+                            2,
+                            vec![
+                                Emit(0),
+                                With { rec: 2, body: vec![Emit(1), Emit(40)], catch: true, via_guard: false },
+                                Emit(3),
+                            ],
+                        ),
+                        Emit(4),
+                        Install(3),
+                        EmitCb(33, vec![Emit(60), With { rec: 1, body: vec![Emit(61)], catch: true, via_guard: true }, Emit(62)]),
+                        Emit(5),
+                        Drop(2),
+                        Emit(6),
+                    ],
+                    catch: true,
+                    via_guard: false,
+                },
+                EmitCb(0, vec![Emit(1)]),
+                End(1),
+                End(2),
+                End(3),
+                Emit(7),
+            ]],
+        ),
+        // the recorder method panics (after making an emission of its own); the panic is caught around the macro
+        // call: the local scope must be exactly what it was
+        (
+            "corpus callback-panic",
+            vec![vec![
+                With {
+                    rec: 1,
+                    body: vec![
+                        EmitCb(0, vec![Emit(1), Panic]),
+                        Emit(2),
+                        EmitCb(21, vec![With { rec: 2, body: vec![Emit(3), Panic], catch: false, via_guard: false }]),
+                        Emit(4),
+                    ],
+                    catch: true,
+                    via_guard: false,
+                },
+                EmitCb(5, vec![Panic]),
+                Emit(6),
+                End(1),
+                End(2),
+                Emit(7),
+            ]],
+        ),
+        // guards owned by frames (not by with_local_recorder) unwound by a panic, two frames at once
+        (
+            "corpus frame-guard-panic",
+            vec![vec![
+                Emit(0),
+                With {
+                    rec: 1,
+                    body: vec![
+                        Emit(1),
+                        With {
+                            rec: 2,
+                            body: vec![Emit(2), With { rec: 3, body: vec![Emit(8), Panic], catch: false, via_guard: true }, Emit(3)],
+                            catch: false,
+                            via_guard: true,
+                        },
+                        Emit(4),
+                    ],
+                    catch: true,
+                    via_guard: true,
+                },
+                Emit(5),
+                End(1),
+                End(2),
+                End(3),
+                Emit(22),
+            ]],
+        ),
     ]
 }
 
@@ -934,6 +1445,188 @@ fn exhaustive(out: &mut Out, global: &mut Option<u32>, len: usize, recs: u32, ru
     go(out, global, &mut vec![], &mut vec![], &mut vec![], 0, len, recs, runs);
 }
 
+// ---------------------------------------------------------------------------------------------
+// type-level guarantees: programs the model answers `rejected` must be rejected by rustc
+//
+// The model assumes two things the running harness can never observe (its recorders are `&'static`, its guards
+// never leave their thread): (1) the borrow of the recorder lives as long as the guard VALUE
+// (`LocalRecorderGuard<'a>` carries the lifetime of `set_default_local_recorder`'s argument), so `endBorrow r` with a
+// live guard of `r` is not a program; (2) guards are `!Send`, so a guard is never dropped on another thread.
+// Each probe is the Rust spelling of a model program; it is compiled (type-checked only) against the `metrics`
+// rlib this very harness was linked with.  The answer to the probe's LAST op is `rejected` iff rustc refuses the
+// program with the expected error class; the control variant (same program, legal order) must compile.
+
+struct Probe {
+    name: &'static str,
+    /// model ops (thread, op text) — the last one is the op the compiler must refuse
+    ops: &'static [(usize, &'static str)],
+    /// the model's answers to all ops but the last (what the control variant does)
+    prefix_answers: &'static [&'static str],
+    body: &'static str,
+    control: &'static str,
+    /// rustc error codes that mean "refused for the right reason"
+    codes: &'static [&'static str],
+    what: &'static str,
+}
+
+const PROBE_PRELUDE: &str = r#"
+#![allow(dead_code, unused_variables)]
+use metrics::{Counter, Gauge, Histogram, Key, KeyName, Metadata, Recorder, SharedString, Unit};
+pub struct R(pub String);
+impl Recorder for R {
+    fn describe_counter(&self, _: KeyName, _: Option<Unit>, _: SharedString) {}
+    fn describe_gauge(&self, _: KeyName, _: Option<Unit>, _: SharedString) {}
+    fn describe_histogram(&self, _: KeyName, _: Option<Unit>, _: SharedString) {}
+    fn register_counter(&self, _: &Key, _: &Metadata<'_>) -> Counter { Counter::noop() }
+    fn register_gauge(&self, _: &Key, _: &Metadata<'_>) -> Gauge { Gauge::noop() }
+    fn register_histogram(&self, _: &Key, _: &Metadata<'_>) -> Histogram { Histogram::noop() }
+}
+"#;
+
+const PROBES: &[Probe] = &[
+    Probe {
+        name: "recorder freed while its guard is alive",
+        ops: &[(0, "install 1"), (0, "end 1")],
+        prefix_answers: &["g0"],
+        body: "pub fn f() { let r = R(String::new()); let g = metrics::set_default_local_recorder(&r); drop(r); metrics::counter!(\"x\").increment(1); drop(g); }",
+        control: "pub fn f() { let r = R(String::new()); let g = metrics::set_default_local_recorder(&r); metrics::counter!(\"x\").increment(1); drop(g); drop(r); }",
+        codes: &["E0505", "E0597"],
+        what: "safe Rust accepts a program that frees the recorder while a LocalRecorderGuard installed from it is alive (the guard no longer carries the recorder's borrow)",
+    },
+    Probe {
+        name: "guard returned out of the recorder's frame",
+        ops: &[(0, "install 1"), (0, "end 1")],
+        prefix_answers: &["g0"],
+        body: "pub fn f() -> metrics::LocalRecorderGuard<'static> { let r = R(String::new()); metrics::set_default_local_recorder(&r) }",
+        control: "pub fn f<'a>(r: &'a R) -> metrics::LocalRecorderGuard<'a> { metrics::set_default_local_recorder(r) }",
+        codes: &["E0515", "E0597", "E0521", "E0716"],
+        what: "safe Rust accepts a function that returns the guard of a recorder local to that function (the guard no longer carries the recorder's borrow)",
+    },
+    Probe {
+        name: "guard stored beyond the recorder's borrow",
+        ops: &[(0, "install 1"), (0, "end 1")],
+        prefix_answers: &["g0"],
+        body: "pub fn f(slot: &mut Option<metrics::LocalRecorderGuard<'static>>) { let r = R(String::new()); *slot = Some(metrics::set_default_local_recorder(&r)); }",
+        control: "pub fn f<'a>(slot: &mut Option<metrics::LocalRecorderGuard<'a>>, r: &'a R) { *slot = Some(metrics::set_default_local_recorder(r)); }",
+        codes: &["E0597", "E0521", "E0716"],
+        what: "safe Rust accepts storing the guard of a short-lived recorder in a 'static slot (the guard's lifetime is decoupled from the recorder's borrow)",
+    },
+    Probe {
+        name: "guard dropped on another thread",
+        ops: &[(0, "install 1"), (1, "drop 0")],
+        prefix_answers: &["g0"],
+        body: "pub fn f() { let r: &'static R = Box::leak(Box::new(R(String::new()))); let g = metrics::set_default_local_recorder(r); std::thread::spawn(move || drop(g)).join().unwrap(); }",
+        control: "pub fn f() { let r: &'static R = Box::leak(Box::new(R(String::new()))); let g = metrics::set_default_local_recorder(r); std::thread::spawn(move || ()).join().unwrap(); drop(g); }",
+        codes: &["E0277"],
+        what: "safe Rust accepts moving a LocalRecorderGuard to another thread (the guard is Send): dropping it there writes one thread's saved recorder into another thread's LOCAL_RECORDER",
+    },
+    Probe {
+        name: "guard shared with another thread",
+        ops: &[(0, "install 1"), (1, "drop 0")],
+        prefix_answers: &["g0"],
+        body: "pub fn f() { let r: &'static R = Box::leak(Box::new(R(String::new()))); let g = metrics::set_default_local_recorder(r); std::thread::scope(|s| { s.spawn(|| { let _x = &g; }); }); }",
+        control: "pub fn f() { let r: &'static R = Box::leak(Box::new(R(String::new()))); let g = metrics::set_default_local_recorder(r); std::thread::scope(|s| { s.spawn(|| ()); }); let _x = &g; }",
+        codes: &["E0277"],
+        what: "safe Rust accepts sharing a LocalRecorderGuard with another thread (the guard is Sync)",
+    },
+];
+
+/// the `metrics` rlib this executable was linked with (newest `libmetrics-*.rlib` beside it) and the deps dir
+fn metrics_rlib() -> (std::path::PathBuf, std::path::PathBuf) {
+    let exe = std::env::current_exe().expect("current_exe");
+    let deps = exe.parent().expect("target dir").join("deps");
+    let mut best: Option<(std::time::SystemTime, std::path::PathBuf)> = None;
+    for e in std::fs::read_dir(&deps).expect("deps dir").flatten() {
+        let n = e.file_name().to_string_lossy().to_string();
+        if n.starts_with("libmetrics-") && n.ends_with(".rlib") {
+            let t = e.metadata().and_then(|m| m.modified()).expect("mtime");
+            if best.as_ref().map_or(true, |b| t > b.0) {
+                best = Some((t, e.path()));
+            }
+        }
+    }
+    (best.expect("libmetrics-*.rlib next to the harness executable").1, deps)
+}
+
+/// type-checks `src`; Ok(()) if rustc accepts it, Err(stderr) otherwise
+fn rustc_check(dir: &std::path::Path, name: &str, src: &str) -> Result<(), String> {
+    let (rlib, deps) = metrics_rlib();
+    let file = dir.join(format!("{}.rs", name));
+    std::fs::write(&file, src).expect("write probe");
+    let o = std::process::Command::new("rustc")
+        // the toolchain file of the harness crate pins the compiler the rlib was built with
+        .current_dir(env!("CARGO_MANIFEST_DIR"))
+        .env_remove("RUSTFLAGS")
+        .args(["--edition", "2021", "--crate-type", "lib", "--emit", "metadata", "--error-format", "short", "-A", "warnings"])
+        .arg("--crate-name")
+        .arg(name)
+        .arg("-o")
+        .arg(dir.join(format!("lib{}.rmeta", name)))
+        .arg("--extern")
+        .arg(format!("metrics={}", rlib.display()))
+        .arg("-L")
+        .arg(format!("dependency={}", deps.display()))
+        .arg(&file)
+        .output()
+        .expect("rustc could not be started");
+    if o.status.success() {
+        Ok(())
+    } else {
+        Err(String::from_utf8_lossy(&o.stderr).to_string())
+    }
+}
+
+fn type_probes(out: &mut Out) {
+    let dir = out.dir.join("probes");
+    std::fs::create_dir_all(&dir).expect("probe dir");
+    // all probes are independent: compile them in parallel
+    let results: Vec<(Result<(), String>, Result<(), String>)> = std::thread::scope(|s| {
+        let hs: Vec<_> = PROBES
+            .iter()
+            .enumerate()
+            .map(|(i, p)| {
+                let dir = dir.clone();
+                s.spawn(move || {
+                    let c = rustc_check(&dir, &format!("probe{}_control", i), &format!("{}\n{}\n", PROBE_PRELUDE, p.control));
+                    let b = rustc_check(&dir, &format!("probe{}", i), &format!("{}\n{}\n", PROBE_PRELUDE, p.body));
+                    (c, b)
+                })
+            })
+            .collect();
+        hs.into_iter().map(|h| h.join().expect("probe thread")).collect()
+    });
+    for (p, (control, body)) in PROBES.iter().zip(results) {
+        out.case(&format!("type probe: {}", p.name));
+        out.count("type_probe");
+        out.nontrivial();
+        // the control variant is the probe's own evidence that the prelude, the rlib and the compiler fit together:
+        // if it does not compile the harness is broken, not the repository
+        if let Err(e) = &control {
+            panic!("type probe `{}`: the LEGAL control program does not compile — harness/toolchain problem:\n{}", p.name, e);
+        }
+        out.op("localrec init ~", "ok");
+        let n = p.ops.len();
+        for (i, (t, op)) in p.ops.iter().enumerate() {
+            if i + 1 < n {
+                out.op(&format!("localrec {} {}", t, op), p.prefix_answers[i]);
+            } else {
+                let ans = match &body {
+                    Ok(()) => "ok".to_string(),
+                    Err(e) if p.codes.iter().any(|c| e.contains(&format!("[{}]", c))) => "rejected".to_string(),
+                    Err(e) => panic!(
+                        "type probe `{}`: rustc refused the program for an unexpected reason (expected one of {:?}):\n{}",
+                        p.name, p.codes, e
+                    ),
+                };
+                out.op(&format!("localrec {} {}", t, op), &ans);
+                if ans != "rejected" {
+                    out.oracle_fail(p.what, &format!("rustc accepts: {}", p.body));
+                }
+            }
+        }
+    }
+}
+
 fn random_case(out: &mut Out, root: &Rng, seed: u64, i: usize, global: &mut Option<u32>) {
     let mut r = root.fork(i as u64);
     let mode = *r.pick(&[Mode::Closures, Mode::Lifo, Mode::Lifo, Mode::Fifo, Mode::Random, Mode::Forget, Mode::Chaos]);
@@ -946,6 +1639,8 @@ fn random_case(out: &mut Out, root: &Rng, seed: u64, i: usize, global: &mut Opti
 
 pub fn run(cfg: &Cfg, out: &mut Out) {
     let root = Rng::new(cfg.seed);
+    let _ = GLOBAL_WRAP.set([Wrap::Ref, Wrap::Arced, Wrap::Boxed][(cfg.seed % 3) as usize]);
+    type_probes(out);
     // the global recorder can be installed once per process: first everything WITHOUT one …
     let mut global: Option<u32> = None;
     for (tag, progs) in corpus() {
@@ -959,28 +1654,50 @@ pub fn run(cfg: &Cfg, out: &mut Out) {
     if cfg.thorough {
         exhaustive(out, &mut global, 5, 2, &mut runs);
     }
-    // … then the installation itself, with a local recorder in scope (local still wins), a second attempt fails …
+    // … then the installation itself: thread 0 installs (with a local recorder in scope: local still wins; a
+    // second attempt fails) while OTHER threads are alive across it — one that emitted before (to the no-op
+    // recorder) and emits again after, one whose first emission ever comes after, one with a local recorder
+    // installed across the installation.  Barriers put the installation strictly between the two phases.
     {
         use Stmt::*;
         run_case(
             out,
             "set_global_recorder",
             &mut global,
-            vec![vec![
-                Emit(0),
-                Install(1),
-                Emit(1),
-                SetGlobal(GLOBAL_ID),
-                Emit(2),
-                With { rec: 2, body: vec![Emit(3)], catch: true },
-                Drop(0),
-                Emit(4),
-                SetGlobal(GLOBAL_ID + 1),
-                Emit(21),
-                End(1),
-                End(2),
-                Emit(5),
-            ]],
+            vec![
+                vec![
+                    Emit(0),
+                    Install(1),
+                    Emit(1),
+                    Sync,
+                    SetGlobal(GLOBAL_ID),
+                    Sync,
+                    Emit(2),
+                    With { rec: 2, body: vec![Emit(3)], catch: true, via_guard: false },
+                    Drop(0),
+                    Emit(4),
+                    SetGlobal(GLOBAL_ID + 1),
+                    Emit(21),
+                    End(1),
+                    End(2),
+                    Emit(5),
+                ],
+                vec![
+                    Emit(0),
+                    Emit(20),
+                    With { rec: 101, body: vec![Emit(2)], catch: true, via_guard: false },
+                    Emit(1),
+                    Sync,
+                    Sync,
+                    Emit(0),
+                    Emit(20),
+                    With { rec: 101, body: vec![Emit(2)], catch: true, via_guard: true },
+                    End(101),
+                    EmitCb(4, vec![Emit(5)]),
+                ],
+                vec![Sync, Sync, Emit(0), Install(201), Emit(1), Drop(0), End(201), Emit(21), Emit(3)],
+                vec![Install(301), Emit(0), Sync, Sync, Emit(1), Drop(0), Emit(2), End(301), Emit(26)],
+            ],
         );
     }
     assert_eq!(global, Some(GLOBAL_ID));
